@@ -198,3 +198,27 @@ def monitor_events(case, obs):
     for f in out:
         uniq.setdefault((f['fingerprint'], f['message']), f)
     return list(uniq.values())
+
+
+def monitor_syspath(case, obs):
+    """add_sys_path: a directory is on sys.path at most once (unless it already was there more
+    often), and a directory that does not exist is never added."""
+    out = []
+    for nm, cnt in obs['counts'].items():
+        if cnt > 1:
+            out.append(fail('sys-path-once', f'directory {nm!r} is on sys.path {cnt} times after concurrent '
+                                             f'add_sys_path calls', 'sys-path-duplicate'))
+        if cnt and not case['dirs'][nm]:
+            out.append(fail('sys-path-existing-only', f'missing directory {nm!r} was added to sys.path',
+                            'sys-path-missing-dir-added'))
+    if case.get('complete'):
+        if obs.get('unfinished'):
+            out.append(fail('completes', f'threads still parked after the full schedule: {obs["unfinished"]!r}',
+                            'lookup-never-completes'))
+        else:
+            asked = {nm for p in case['progs'] for nm in p if case['dirs'][nm]}
+            for nm in asked:
+                if obs['counts'][nm] == 0:
+                    out.append(fail('sys-path-added', f'existing directory {nm!r} was not added to sys.path',
+                                    'sys-path-not-added'))
+    return out
